@@ -697,6 +697,18 @@ class Builder:
             return some(self._inline(fn))
         if c == ["bool", False]:
             return NONE
+        if c[0] == "op" and c[1] == "<" and c[2] == ["n", 0]:
+            seq = self._nested(fn)
+            st = seq["steps"]
+            if len(st) == 1 and st[0][0] == "bytes" and st[0][2] == c[3] and seq["ret"] == ["ok", V(st[0][1])]:
+                # taking zero bytes always succeeds and yields the empty slice: the test only decides between None and Some
+                self.steps.append(st[0])
+                self._adv()
+                return ["nonempty", V(st[0][1])]
+            b = self.counter.fresh()
+            self.steps.append(["cond", b, c, seq])
+            self._adv()
+            return V(b)
         return self._wrap("cond", fn, c)
 
     def count(self, n, fn):
@@ -1636,6 +1648,9 @@ class Ev:
                 v = ParserChoice(ie, dict(env), gen, b.cur)
             elif has_effects(ie):
                 v = self.eval_value_expr(ie, env, gen, b)
+                r_ = self.cps_selector(b, v, pat, env, gen, rest, tail)
+                if r_ is not None:
+                    return r_
             else:
                 # pure let
                 v = self.sym_or_closure(ie, env, gen)
@@ -1748,13 +1763,27 @@ class Ev:
             inner = strip(is_try(e))
             OPT = "core::option::Option::<T>::"
             if inner["k"] == "mcall" and inner.get("path") in (OPT + "ok_or", OPT + "ok_or_else") and len(inner["args"]) == 1:
-                sp = self.option_split(self.sym(inner["recv"], env, gen))
-                if sp is None:
-                    raise Opaque("ok_or on an Option the analysis cannot split")
-                none_c, val = sp
+                sc_ = self.sym(inner["recv"], env, gen)
+                sp = self.option_split(sc_)
                 a0 = strip_ref(inner["args"][0])
                 errx = a0["body"] if a0["k"] == "closure" else a0
                 kind, sev = self.err_kind(errx)
+                if sp is None and sc_[0] == "matchv" and all(v_ == NONE or (v_[0] == "ctor" and v_[1] == "core::option::Option::Some") for _, v_ in sc_[2]):
+                    # a table lookup `match x { k => Some(v), _ => None }`: a dispatch whose None arms reject
+                    arms_, dflt_ = [], None
+                    for cs_, v_ in sc_[2]:
+                        fn_ = (lambda nb, v_=v_: nb.fail(kind, sev)) if v_ == NONE else (lambda nb, v_=v_: v_[2][0])
+                        if cs_ is None:
+                            dflt_ = fn_
+                        else:
+                            arms_.append((cs_, fn_))
+                    if dflt_ is None:
+                        raise Opaque("table lookup without catch-all")
+                    scr_ = sc_[1][2][0] if (sc_[1][0] == "ctor" and len(sc_[1][2]) == 1) else sc_[1]
+                    return b.switch(scr_, arms_, dflt_)
+                if sp is None:
+                    raise Opaque("ok_or on an Option the analysis cannot split")
+                none_c, val = sp
                 if sev == "Error":
                     b.guard(none_c, kind)
                 else:
@@ -1965,6 +1994,34 @@ class Ev:
         if blk["expr"] is None:
             raise Opaque("block without tail in result position")
         return self.eval_result_block(blk["expr"], env, gen, b)
+
+    def cps_selector(self, b, v, pat, env, gen, rest, tail):
+        """`let sel = <dispatch yielding constants>; REST`: REST is evaluated once per constant (inside the arms), so that
+        what REST does with the selector (a cond on a bool, a const generic made a runtime flag) is specialised"""
+        if not (rest or tail is not None) or not (isinstance(v, list) and v[0] == "v" and b.steps and b.steps[-1][0] in ("switch", "ite") and b.steps[-1][1] == v[1]):
+            return None
+        st = b.steps[-1]
+        seqs = ([s for _, s in st[3]] + [st[4]]) if st[0] == "switch" else [st[3], st[4]]
+        def const_ret(s):
+            return not s["steps"] and s["ret"] and (s["ret"][0] == "err" or (s["ret"][0] == "ok" and s["ret"][1][0] in ("n", "bool", "unit")))
+        if not all(const_ret(s) for s in seqs):
+            return None
+        b.steps.pop()
+        rest_block = {"k": "block", "stmts": rest, "expr": tail}
+        def cont(s):
+            def fn(nb):
+                if s["ret"][0] == "err":
+                    nb.fail(s["ret"][1], s["ret"][2])
+                env3 = dict(env)
+                self.bind_pat(pat, s["ret"][1], env3)
+                return self.eval_result_block_noskip(rest_block, env3, gen, nb)
+            return fn
+        if st[0] == "ite":
+            return (b.ite(st[2], cont(st[3]), cont(st[4])),)
+        groups = {}
+        for c_, s in st[3]:
+            groups.setdefault(id(s), (s, []))[1].append(c_)
+        return (b.switch(st[2], [(cs, cont(s)) for s, cs in groups.values()], cont(st[4])),)
 
     def diverges(self, body):
         """does the arm body end in `return ..` (so that its value is the function's result)?"""
@@ -2819,7 +2876,7 @@ class Ev:
         return ["lam", len(clo["params"]), self.sym(clo["body"], env2, gen)]
 
 
-IRESULT_TY = re.compile(r"^core::result::Result<\(&")
+IRESULT_TY = re.compile(r"^(core::option::Option<)?core::result::Result<\(&")
 FNPTR_TY = re.compile(r"^(for<[^>]*> ?)?(unsafe )?fn\(")
 OPT_OR_FN_TY = re.compile(r"^(core::option::Option<|(for<[^>]*> ?)?fn\()")
 
@@ -2845,6 +2902,15 @@ ITER = "core::iter::traits::iterator::Iterator::"
 
 def canon_mcall(p, args):
     """semantic forms of the hand-written list decoders"""
+    if p == "core::option::Option::<core::option::Option<T>>::flatten" or p.endswith("Option<T>>::flatten"):
+        if args[0][0] == "ctor" and args[0][1] == "core::option::Option::Some":
+            return args[0][2][0]
+        if args[0] == NONE:
+            return NONE
+    if p == "core::option::Option::<T>::filter" and len(args) == 2 and args[0][0] == "ctor" and args[0][1] == "core::option::Option::Some":
+        f_ = args[1]
+        if f_[0] == "lam" and f_[1] == 1 and f_[2] == ["op", "<", ["n", 0], ["len", ["lp", 0]]]:
+            return ["nonempty", args[0][2][0]]   # Some(x) if x is not empty, else None
     if p in (ITER + "copied", ITER + "cloned") and len(args) == 1:
         return args[0]  # element values are compared, not their addresses
     if p == ITER + "map" and len(args) == 2:
